@@ -1006,6 +1006,13 @@ func (s *Service) runWith(wid string, cb func()) {
 	verifPoint("runWith.checked", wid)
 
 	s.mu.Lock()
+	// A nil workqueue means the service started closing after the state check
+	// above. Adding work would revive the queue and leave workers waiting on
+	// it forever.
+	if s.workqueue == nil {
+		s.mu.Unlock()
+		return
+	}
 	// Get current work queue for the resource
 	var w *work
 	var ok bool
